@@ -16,6 +16,7 @@ NOTE = ("Trusted: bitarray C extension (replaced by a model that is differential
 
 # property -> (technique, design section, extra note) ; None = not yet claimed
 CLAIMED = {
+    'C10': ("symbolic execution (CrossHair/z3): encoders per bit-length class against the standards' codeword shape, decoder totality over all bit strings", "DESIGN.md 5/C10", ""),
     'C02': ("symbolic execution (CrossHair/z3) of every creation and reading route per dtype/width; value is one solver variable", "DESIGN.md 5/C02", ""),
     'C15': ("symbolic execution (CrossHair/z3): total classification of (dtype, length, value) into exact success or CreationError", "DESIGN.md 5/C15", ""),
     'C07': ("symbolic execution (CrossHair/z3) of find/rfind/findall/in/startswith/endswith/count/cut/split against a declarative brute-force definition", "DESIGN.md 5/C07", ""),
